@@ -103,7 +103,7 @@ def chunk_list(d):
 
 def project(impl, case):
     """what the chunk-structure model predicts: close result and uncompressed chunk sizes"""
-    if not impl.startswith('OK') or not case.op.startswith('WRITE'): return impl
+    if not impl.startswith('OK') or not case.op.startswith('WRITE '): return impl
     d = parse_out(impl)
     if d.get('close') != '1': return 'OK close=0'
     lens = [e.split(':')[2] for e in d.get('cl', '').split(';') if e.count(':') == 2]
